@@ -548,99 +548,265 @@ func (c *Ctx) recursionDepthPaired(rule string) {
 // parseErrorsKeepTheTag (R11.9): once the tag of a line is known, a refusal of the line carries it.
 func (c *Ctx) parseErrorsKeepTheTag(rule string) {
 	P, R := c.P, c.R
-	R.Explain(rule, "every complete line is answered with its own tag: in command.(*Parser).Parse every error return that lies after the successful parse of the tag returns a Command whose Tag field has been assigned on every path to that return (directly, or copied from a Command for which that holds); the session answers a failed line with response.Bad(<that Command's Tag>), so an error return of the empty Command after the tag is known makes the server answer an untagged BAD and the client never sees the completion of its command.")
-	f := c.fn(rule, "imap/command.(*Parser).Parse")
-	if f == nil {
+	R.Explain(rule, "every complete line is answered with its own tag: in command.(*Parser).Parse (and the helpers of the package it is split into) every error return that lies after the successful parse of the tag returns a Command whose Tag field has been assigned on every path to that return - directly, copied from a Command for which that holds, received as a parameter for which it holds at every call site, or returned by a helper all of whose relevant returns satisfy it; the DONE continuation (tag text `done`) deliberately has no tag.  The session answers a failed line with response.Bad(<that Command's Tag>), so an error return of the empty Command after the tag is known makes the server answer an untagged BAD and the client never sees the completion of its command.")
+	parse := c.fn(rule, "imap/command.(*Parser).Parse")
+	if parse == nil {
 		return
 	}
 	tagFld := c.fieldOf("imap/command", "Command", "Tag")
-	// nil-error edge of parseTag
+	unit := c.withPackageHelpers(parse, "imap/command", 2)
+	// the function of the unit that parses the tag, and the nil-error edge of that parse
+	var g *ssa.Function
 	var tagIf *ssa.BasicBlock
 	tagNilIx := 0
-	for _, cs := range engine.Calls(f) {
-		sc := cs.Common().StaticCallee()
-		if sc == nil || engine.ShortName(sc) != "parseTag" {
+	for _, f := range unit {
+		if f.Parent() != nil {
 			continue
 		}
-		call, ok := cs.Instr.(*ssa.Call)
-		if !ok {
-			continue
-		}
-		for _, r := range *call.Referrers() {
-			ex, ok := r.(*ssa.Extract)
-			if !ok || ex.Type().String() != "error" {
+		for _, cs := range engine.Calls(f) {
+			sc := cs.Common().StaticCallee()
+			if sc == nil || engine.ShortName(sc) != "parseTag" || cs.Instr.Parent() != f {
 				continue
 			}
-			for _, r2 := range *ex.Referrers() {
-				bin, ok := r2.(*ssa.BinOp)
-				if !ok {
-					continue
-				}
-				for _, r3 := range *bin.Referrers() {
-					if iff, ok := r3.(*ssa.If); ok {
-						tagIf = iff.Block()
-						tagNilIx = 1
-						if bin.Op == token.EQL {
-							tagNilIx = 0
-						}
-					}
-				}
+			if blk, ix := nilErrorEdgeOf(cs.Instr); blk != nil {
+				g, tagIf, tagNilIx = f, blk, ix
 			}
 		}
 	}
-	if tagIf == nil || tagFld == nil {
-		R.Fail(rule, c.name(f)+"|tag parse", P.Pos(f.Pos()), "Parse no longer parses the tag through parseTag with an error test: the rule cannot be evaluated")
+	if g == nil || tagFld == nil {
+		R.Fail(rule, c.name(parse)+"|tag parse", P.Pos(parse.Pos()), "neither Parse nor a helper it calls parses the tag through parseTag with an error test: the rule cannot be evaluated")
 		return
 	}
-	// assigned: on every path from the successful tag parse to `at`, a store to a.Tag is passed; a store that
-	// copies another Command's Tag only counts if that Command's Tag is assigned at the store in the same sense
-	var assigned func(a *ssa.Alloc, at ssa.Instruction, d int) bool
-	assigned = func(a *ssa.Alloc, at ssa.Instruction, d int) bool {
-		if d > 3 {
+	// paths through the DONE edge carry no tag by design
+	doneSkip := func(f *ssa.Function) map[engine.Edge]bool {
+		out := map[engine.Edge]bool{}
+		for _, b := range f.Blocks {
+			iff := engine.IfOf(b)
+			if iff == nil {
+				continue
+			}
+			cond, neg := engine.StripNot(iff.Cond)
+			bin, ok := cond.(*ssa.BinOp)
+			if !ok || (bin.Op != token.EQL && bin.Op != token.NEQ) {
+				continue
+			}
+			isDone := false
+			for _, x := range []ssa.Value{bin.X, bin.Y} {
+				if s, ok := engine.ConstString(x); ok && s == "done" {
+					isDone = true
+				}
+			}
+			if !isDone {
+				continue
+			}
+			ix := 0
+			if (bin.Op == token.NEQ) != neg {
+				ix = 1
+			}
+			out[engine.Edge{From: b, Succ: ix}] = true
+		}
+		return out
+	}
+	startOf := func(f *ssa.Function) *ssa.BasicBlock {
+		if f == g {
+			return tagIf.Succs[tagNilIx]
+		}
+		return f.Blocks[0]
+	}
+	var tagKnown func(fn *ssa.Function, v ssa.Value, at ssa.Instruction, d int) bool
+	// returnsKnown: every return of h of the given kind (error / success) that can follow the tag parse returns a known Command
+	returnsKnown := func(h *ssa.Function, wantErr bool, d int) bool {
+		any := false
+		for _, ret := range engine.Returns(h) {
+			lr := engine.LastResult(ret)
+			if lr == nil || len(ret.Results) < 2 {
+				continue
+			}
+			isErr := !engine.IsNilConst(lr)
+			if isErr != wantErr {
+				continue
+			}
+			if h == g && !engine.EdgeDominates(tagIf, tagNilIx, ret.Block()) {
+				continue // before the tag is known
+			}
+			any = true
+			if !tagKnown(h, engine.ResultOf(ret, 0), ret, d+1) {
+				return false
+			}
+		}
+		return any
+	}
+	tagKnown = func(fn *ssa.Function, v ssa.Value, at ssa.Instruction, d int) bool {
+		if d > 5 || v == nil {
 			return false
 		}
-		cut := map[ssa.Instruction]bool{}
-		for _, b := range f.Blocks {
-			for _, in := range b.Instrs {
-				st, ok := in.(*ssa.Store)
-				if !ok {
-					continue
+		switch t := v.(type) {
+		case *ssa.Parameter:
+			idx := -1
+			for i, q := range fn.Params {
+				if q == t {
+					idx = i
 				}
-				fa, ok := st.Addr.(*ssa.FieldAddr)
-				if !ok || fa.X != ssa.Value(a) || fieldOfAddr(fa) != tagFld {
-					continue
+			}
+			callers := c.P.CallersOf(fn)
+			if idx < 0 || len(callers) == 0 {
+				return false
+			}
+			for _, cs := range callers {
+				if cs.Common().IsInvoke() || idx >= len(cs.Common().Args) || !tagKnown(cs.Fn, cs.Common().Args[idx], cs.Instr, d+1) {
+					return false
 				}
-				if ld, ok := st.Val.(*ssa.UnOp); ok && ld.Op == token.MUL {
-					if fa2, ok := ld.X.(*ssa.FieldAddr); ok && fieldOfAddr(fa2) == tagFld {
-						if a2, ok := fa2.X.(*ssa.Alloc); ok && !assigned(a2, st, d+1) {
+			}
+			return true
+		case *ssa.Extract:
+			call, ok := t.Tuple.(*ssa.Call)
+			if !ok || t.Index != 0 {
+				return false
+			}
+			h := call.Call.StaticCallee()
+			if h == nil || len(h.Blocks) == 0 || !P.IsOwn(h) || h == fn {
+				return false
+			}
+			if blk, ix := nilErrorEdgeOf(call); blk != nil && engine.EdgeDominates(blk, ix, at.Block()) {
+				return returnsKnown(h, false, d) // used after the helper succeeded
+			}
+			// forwarded together with the helper's error, or used on both outcomes
+			return returnsKnown(h, true, d) && (returnsKnown(h, false, d) || forwardedWithError(at, call))
+		case *ssa.UnOp:
+			if t.Op != token.MUL {
+				return false
+			}
+			a, ok := t.X.(*ssa.Alloc)
+			if !ok {
+				return false
+			}
+			cut := map[ssa.Instruction]bool{}
+			for _, b := range fn.Blocks {
+				for _, in := range b.Instrs {
+					st, ok := in.(*ssa.Store)
+					if !ok {
+						continue
+					}
+					if st.Addr == ssa.Value(a) {
+						if tagKnown(fn, st.Val, st, d+1) {
+							cut[st] = true
+						}
+						continue
+					}
+					fa, ok := st.Addr.(*ssa.FieldAddr)
+					if !ok || fa.X != ssa.Value(a) || fieldOfAddr(fa) != tagFld {
+						continue
+					}
+					switch src := st.Val.(type) {
+					case *ssa.UnOp:
+						if fa2, ok := src.X.(*ssa.FieldAddr); ok && src.Op == token.MUL && fieldOfAddr(fa2) == tagFld {
+							if a2, ok := fa2.X.(*ssa.Alloc); ok && !tagKnown(fn, &ssa.UnOp{Op: token.MUL, X: a2}, st, d+1) {
+								continue
+							}
+						}
+					case *ssa.Field:
+						if fieldOfField(src) == tagFld && !tagKnown(fn, src.X, st, d+1) {
 							continue
 						}
 					}
+					cut[st] = true
 				}
-				cut[st] = true
 			}
+			if len(cut) == 0 {
+				return false
+			}
+			return !engine.ReachesAvoidingFrom(startOf(fn), 0, at, cut, doneSkip(fn))
 		}
-		if len(cut) == 0 {
-			return false
-		}
-		return !engine.ReachesAvoidingFrom(tagIf.Succs[tagNilIx], 0, at, cut, nil)
+		return false
 	}
 	n := 0
-	for _, ret := range engine.Returns(f) {
-		lr := engine.LastResult(ret)
-		if lr == nil || engine.IsNilConst(lr) || !engine.EdgeDominates(tagIf, tagNilIx, ret.Block()) {
-			continue
-		}
+	judge := func(f *ssa.Function, ret *ssa.Return) {
 		n++
-		ok := false
-		if ld, isLd := engine.ResultOf(ret, 0).(*ssa.UnOp); isLd && ld.Op == token.MUL {
-			if a, isA := ld.X.(*ssa.Alloc); isA {
-				ok = assigned(a, ret, 0)
-			}
-		}
+		ok := tagKnown(f, engine.ResultOf(ret, 0), ret, 0)
 		R.Check(ok, rule, c.name(f)+"|error return#"+strconv.Itoa(n)+" keeps the tag", P.Pos(ret.Pos()), "the returned Command's Tag was assigned", "an error return after the tag was parsed hands back a Command without the tag: the line is answered with an untagged BAD")
 	}
-	R.Min(rule, "error returns of Parse after the tag is known", n, 3)
+	// inside the tag-parsing function: every error return after the tag edge
+	for _, ret := range engine.Returns(g) {
+		lr := engine.LastResult(ret)
+		if lr == nil || engine.IsNilConst(lr) || len(ret.Results) < 2 || !engine.EdgeDominates(tagIf, tagNilIx, ret.Block()) {
+			continue
+		}
+		judge(g, ret)
+	}
+	// up the call chain to Parse: error returns after the helper that parsed the tag has succeeded
+	cur := g
+	for depth := 0; cur != parse && depth < 3; depth++ {
+		var caller *ssa.Function
+		var callInstr ssa.Instruction
+		for _, cs := range c.P.CallersOf(cur) {
+			for _, u := range unit {
+				if u == cs.Fn {
+					caller, callInstr = cs.Fn, cs.Instr
+				}
+			}
+		}
+		if caller == nil {
+			R.Fail(rule, c.name(cur)+"|call chain", P.Pos(cur.Pos()), "the helper that parses the tag is not called from Parse: the rule cannot be evaluated")
+			return
+		}
+		blk, ix := nilErrorEdgeOf(callInstr)
+		for _, ret := range engine.Returns(caller) {
+			lr := engine.LastResult(ret)
+			if lr == nil || engine.IsNilConst(lr) || len(ret.Results) < 2 {
+				continue
+			}
+			if blk != nil && engine.EdgeDominates(blk, ix, ret.Block()) {
+				judge(caller, ret) // the tag is known here
+			}
+		}
+		cur = caller
+	}
+	R.Min(rule, "error returns after the tag is known", n, 1)
+}
+
+// nilErrorEdgeOf returns the branch (block, successor index) taken when the error result of call is nil.
+func nilErrorEdgeOf(call ssa.Instruction) (*ssa.BasicBlock, int) {
+	v, ok := call.(ssa.Value)
+	if !ok || v.Referrers() == nil {
+		return nil, 0
+	}
+	var errs []ssa.Value
+	if v.Type().String() == "error" {
+		errs = append(errs, v)
+	}
+	for _, r := range *v.Referrers() {
+		if ex, ok := r.(*ssa.Extract); ok && ex.Type().String() == "error" {
+			errs = append(errs, ex)
+		}
+	}
+	for _, e := range errs {
+		for _, r2 := range *e.Referrers() {
+			bin, ok := r2.(*ssa.BinOp)
+			if !ok || (bin.Op != token.EQL && bin.Op != token.NEQ) {
+				continue
+			}
+			for _, r3 := range *bin.Referrers() {
+				if iff, ok := r3.(*ssa.If); ok {
+					if bin.Op == token.EQL {
+						return iff.Block(), 0
+					}
+					return iff.Block(), 1
+				}
+			}
+		}
+	}
+	return nil, 0
+}
+
+// forwardedWithError: `at` is a return that hands on both results of call unchanged.
+func forwardedWithError(at ssa.Instruction, call *ssa.Call) bool {
+	ret, ok := at.(*ssa.Return)
+	if !ok || len(ret.Results) < 2 {
+		return false
+	}
+	e0, ok0 := ret.Results[0].(*ssa.Extract)
+	e1, ok1 := ret.Results[len(ret.Results)-1].(*ssa.Extract)
+	return ok0 && ok1 && e0.Tuple == ssa.Value(call) && e1.Tuple == ssa.Value(call)
 }
 
 // nilEncodingIsRefused (R11.10): an IANA charset without implementation is (nil, nil), not an error.
